@@ -6,7 +6,8 @@
 # Exit 0: property held on everything explored (or only known findings);
 # exit 1: VIOLATION line printed; exit 2: internal error of the machinery.
 set -u
-ROOT=/verif
+# ROOT is where this script lives (normally /verif): a snapshot of the directory (vp run) runs its own harness
+ROOT=$(cd "$(dirname "$(readlink -f "$0")")" && pwd)
 H=$ROOT/harness
 export GOFLAGS=-mod=mod GOPROXY=off GOSUMDB=off GOTOOLCHAIN=local
 export GOCACHE=${GOCACHE:-/root/.cache/go-build}
